@@ -648,7 +648,137 @@ def r12e(ctx, rule='R12e'):
     ctx.floor(rule, 'normalised masker products', n, 2)
 
 
+STATIC_KEYS = {'in_channels', 'out_channels', 'kernel_size', 'groups', 'output_shape',
+               'input_shape', 'in_features', 'out_features', 'stride', 'dilation', 'padding',
+               'bias', '_parameters'}
+TENSOR_ONLY = ('floor', 'ceil', 'round', 'trunc', 'abs', 'sqrt', 'log', 'log2', 'exp', 'clamp',
+               'clip', 'maximum', 'minimum', 'max', 'min', 'sum', 'prod', 'mean', 'floor_divide',
+               'remainder', 'fmod', 'sign', 'relu', 'where', 'mul', 'add', 'div', 'sub')
+
+
+class _NotANumberOp(Exception):
+    def __init__(self, what, node_fn):
+        super().__init__(what)
+        self.what, self.fn = what, node_fn
+
+
+def r12i(ctx):
+    """"Can be evaluated" also for the layers that are not searched: with full_cost the wrappers
+    hand ``vars(layer)`` of a plain nn.Conv2d / nn.Linear to the same cost functions, so every
+    size is a Python int, not a tensor.  Each registered cost function that reads only static
+    layer attributes is evaluated in a two-point type domain (N = Python number, T = tensor):
+    arithmetic keeps N unless a tensor takes part; ``math.*`` and the builtins accept N;
+    ``torch.tensor / as_tensor`` lift N to T; a tensor-only torch function (``torch.floor`` ..)
+    or a tensor method applied to N raises TypeError / AttributeError at run time.  Autograd
+    helpers (``X.apply``) and repository helpers are followed through their own return terms."""
+    from ..costlib import cost_specs as _cs, spec_param
+    repo = ctx.repo
+    specs = _cs(repo)
+    n = 0
+
+    def ev_fn(fn, binds, depth):
+        """tag of the value a repository function returns with its parameters tagged"""
+        tags = set()
+        for p in returning(paths(repo, fn)):
+            tags.add(tag(p.retval, fn, binds, depth))
+        return 'T' if 'T' in tags else 'N'
+
+    def tag(t, fn, binds, depth):
+        if depth > 8 or t is None:
+            return 'T'
+        k = t[0]
+        if k == 'const':
+            return 'N'
+        if k == 'param':
+            return binds.get(t[1], 'T')
+        if k in ('sub', 'attr', 'elem', 'starred'):
+            return tag(t[1], fn, binds, depth)
+        if k in ('tuple', 'list'):
+            ts = {tag(x, fn, binds, depth) for x in t[1]}
+            return 'T' if 'T' in ts else 'N'
+        if k == 'bin':
+            return 'T' if 'T' in (tag(t[2], fn, binds, depth), tag(t[3], fn, binds, depth)) else 'N'
+        if k == 'un':
+            return tag(t[2], fn, binds, depth)
+        if k == 'ifexp':
+            c, pol = (t[1][2], False) if (t[1][0] == 'un' and t[1][1] == 'not') else (t[1], True)
+            if c[0] == 'call' and (callee(c) or '') in ('builtins.isinstance', 'torch.is_tensor') \
+                    and c[2]:
+                # dispatch on the type of the operand: only the arm of this world is evaluated
+                is_t = tag(c[2][0], fn, binds, depth) == 'T'
+                return tag(t[2] if is_t == pol else t[3], fn, binds, depth)
+            return 'T' if 'T' in (tag(t[2], fn, binds, depth), tag(t[3], fn, binds, depth)) else 'N'
+        if k in ('cmp', 'bool', 'isnone'):
+            return 'N'
+        if k == 'call':
+            c = callee(t) or ''
+            mc = method_call(t)
+            args = [tag(a, fn, binds, depth) for a in t[2]] + \
+                [tag(a, fn, binds, depth) for _, a in t[3]]
+            if mc is not None and mc[1] == 'apply' and mc[0][0] == 'global' and \
+                    mc[0][1] in repo.classes and 'forward' in repo.classes[mc[0][1]].methods:
+                fw = repo.classes[mc[0][1]].methods['forward']
+                b = {p: a for p, a in zip(fw.params[1:], args)}
+                return ev_fn(fw, b, depth + 1)
+            if c.endswith('.apply') and c[:-6] in repo.classes and \
+                    'forward' in repo.classes[c[:-6]].methods:
+                fw = repo.classes[c[:-6]].methods['forward']
+                b = {p: a for p, a in zip(fw.params[1:], args)}
+                return ev_fn(fw, b, depth + 1)
+            if c in repo.functions:
+                g = repo.functions[c]
+                return ev_fn(g, {p: a for p, a in zip(g.params, args)}, depth + 1)
+            if c.startswith('math.') or c in ('builtins.int', 'builtins.float', 'builtins.len',
+                                              'builtins.bool', 'builtins.round'):
+                return 'N'
+            if c in ('builtins.max', 'builtins.min', 'builtins.abs', 'builtins.sum',
+                     'builtins.pow', 'builtins.divmod'):
+                return 'T' if 'T' in args else 'N'
+            if c in ('torch.tensor', 'torch.as_tensor', 'torch.ones', 'torch.zeros',
+                     'torch.full', 'torch.scalar_tensor', 'torch.Tensor'):
+                return 'T'
+            if c.startswith('torch.'):
+                name = c.rsplit('.', 1)[1]
+                if name in TENSOR_ONLY and args and 'T' not in args[:1]:
+                    raise _NotANumberOp(f'{c}({short(t[2][0], 50) if t[2] else ""})', fn)
+                return 'T'
+            if mc is not None:
+                recv = tag(mc[0], fn, binds, depth)
+                if recv == 'N' and mc[0][0] != 'global' and mc[1] not in (
+                        'bit_length', 'is_integer', 'conjugate', 'real', 'imag', 'get', 'items',
+                        'keys', 'values', 'index', 'count'):
+                    raise _NotANumberOp(f'{short(mc[0], 40)}.{mc[1]}()', fn)
+                return recv if mc[1] in ('get',) else 'T'
+            return 'T'
+        return 'T'
+    for sname, si in sorted(specs.items()):
+        for r in si.regs:
+            probs: List[str] = []
+            keys = set(keys_read(repo, r.fn, problems=probs))
+            if not keys or not keys <= STATIC_KEYS:
+                continue            # needs search state (precisions, coefficients): no fixed-layer use
+            n += 1
+            sp = spec_param(r.fn)
+            bad = None
+            try:
+                for p in returning(paths(repo, r.fn)):
+                    tag(p.retval, r.fn, {sp[1]: 'N'}, 0)
+                    for e in p.calls():
+                        tag(e.data[0], r.fn, {sp[1]: 'N'}, 0)
+            except _NotANumberOp as ex:
+                bad = ex
+            ctx.ob('R12i', f'{sname}[{r.pattern}] evaluable on a layer that is not searched',
+                   bad is None, 'every operation accepts plain numbers (vars(layer) of a fixed '
+                   'layer under full_cost)' if bad is None else
+                   f'{bad.fn.qualname.split("plinio.")[-1]} applies {bad.what} to a Python number: '
+                   f'with full_cost=True the sizes of a layer kept out of the search (exclude_names '
+                   f'/ exclude_types, autoconvert off) are ints, so model.cost raises TypeError '
+                   f'instead of returning the cost', where(r.fn))
+    ctx.floor('R12i', 'cost functions over static layer attributes', n, 10)
+
+
 def run(ctx):
+    r12i(ctx)
     # "a function of the architecture only": not of which metric of a dictionary specification
     # was evaluated first -- the memo rule of C04/C05/C06 on the three wrappers
     from .c06 import memo_rule
